@@ -23,7 +23,6 @@ import SiaModel.Prim.Sha256
     policy-decode <hex>             → "ok <policy>" | "reject"
     policy-std <pkhex> <timelockLeafHex> <sigsreqLeafHex>
         → "<StandardAddress hex> <StandardUnlockHash hex>"
-    policy-sat … same arguments as policy-verify → "accept" | "reject" by the executable meaning `satB`
 -/
 namespace Sia.Driver
 open Sia Sia.Policy
